@@ -34,3 +34,26 @@ pub fn catch<R>(f: impl FnOnce() -> R) -> Result<R, String> {
 pub fn quiet_panics() {
     std::panic::set_hook(Box::new(|_| {}));
 }
+
+/// Run `f` while the thread is already unwinding from a panic (inside a destructor that the
+/// unwind runs), and hand its result out. Code that asks `std::thread::panicking()` takes its
+/// other branch here. `f` itself must not panic (that would be a double panic: abort).
+pub fn during_unwind<R>(f: impl FnOnce() -> R) -> R {
+    struct G<F: FnOnce() -> R, R>(Option<F>, *mut Option<R>);
+    impl<F: FnOnce() -> R, R> Drop for G<F, R> {
+        fn drop(&mut self) {
+            debug_assert!(std::thread::panicking());
+            let r = (self.0.take().unwrap())();
+            unsafe { *self.1 = Some(r) };
+        }
+    }
+    let mut out: Option<R> = None;
+    let outp: *mut Option<R> = &mut out;
+    let r = std::panic::catch_unwind(std::panic::AssertUnwindSafe(|| {
+        let _g = G(Some(f), outp);
+        arena::suspend(|| std::panic::resume_unwind(Box::new("vrt: context panic")));
+    }));
+    assert!(r.is_err());
+    arena::suspend(|| drop(r));
+    out.expect("the destructor that carries the operation did not run")
+}
